@@ -65,6 +65,9 @@ mod workbook;
 #[cfg(test)]
 mod test;
 
+#[cfg(ironcalc_verif)]
+pub mod verif;
+
 #[cfg(any(test, feature = "mock_time"))]
 pub mod mock_time;
 
